@@ -15,10 +15,12 @@ import (
 
 // checkArgumentRoles: calls between repository functions pass many same-typed scalars positionally
 // (start/end, sizes and distances, thresholds). Two rules over the typed syntax, by parameter NAME:
-//  (swap)  an argument that is a plain variable named like a DIFFERENT parameter of the callee (same type),
-//          while the parameter in its own position has another name;
-//  (pass-through) the callee's parameter is named P, the caller itself has a parameter named P of the same
-//          type, and the argument is a different plain variable.
+//
+//	(swap)  an argument that is a plain variable named like a DIFFERENT parameter of the callee (same type),
+//	        while the parameter in its own position has another name;
+//	(pass-through) the callee's parameter is named P, the caller itself has a parameter named P of the same
+//	        type, and the argument is a different plain variable.
+//
 // Either is how a wrong option reaches a stage although every stage is right on its own.
 func checkArgumentRoles(c *core.Ctx, rule string, pkgs ...string) int {
 	n := 0
@@ -76,7 +78,11 @@ func checkArgumentRoles(c *core.Ctx, rule string, pkgs ...string) int {
 						if pi.Name() == "" || pi.Name() == "_" || strings.EqualFold(pi.Name(), id.Name) {
 							continue
 						}
-						if b, ok := pi.Type().Underlying().(*types.Basic); !ok || b.Info()&(types.IsNumeric|types.IsBoolean|types.IsString) == 0 {
+						scalar := func(t types.Type) bool {
+							b, ok := t.Underlying().(*types.Basic)
+							return ok && b.Info()&(types.IsNumeric|types.IsBoolean|types.IsString) != 0
+						}
+						if sl, isSlice := pi.Type().Underlying().(*types.Slice); !(scalar(pi.Type()) || isSlice && scalar(sl.Elem())) {
 							continue // channels, readers and records are told apart by their types and by the pipeline rules
 						}
 						// (swap)
